@@ -182,6 +182,11 @@ PROPS = {
     },
 }
 
+# the hypotheses of the property theorems are shown satisfiable on one concrete, non-trivial definition
+WITNESS = 'SMV.Props.Witness'
+for _p in PROPS.values():
+    _p['modules'].append(WITNESS)
+
 ALLOWED_AXIOMS = {'propext', 'Quot.sound', 'Classical.choice'}
 
 TRUSTED_BASE = [
